@@ -29,6 +29,11 @@ TARGETS = {
     "struct": {"type": "object", "properties": {"marker_d": INT}, "required": ["marker_d"]},
     "enum": {"type": "string", "enum": ["da", "db"]},
     "newtype": {"type": "string", "maxLength": 3},
+    "map": {"type": "object", "additionalProperties": {"type": "integer"}},
+    "tagged": {"oneOf": [{"type": "object", "properties": {"Va": {"type": "integer"}}, "required": ["Va"], "additionalProperties": False},
+                         {"type": "object", "properties": {"Vb": {"type": "object", "properties": {"marker_d": {"type": "string"}}, "required": ["marker_d"]}},
+                          "required": ["Vb"], "additionalProperties": False}, {"type": "string", "enum": ["Vu"]}]},
+    "alias_vec": {"type": "array", "items": {"type": "string"}},
 }
 
 
@@ -92,9 +97,9 @@ def settings_for(feats):
 
 
 def cases(tier, seed):
-    k = 2 if tier == "quick" else 3
     out = []
     for kind in TARGETS:
+        k = (2 if kind == "struct" else 1) if tier == "quick" else 3
         combos = [()]
         for r in range(1, k + 1):
             for combo in itertools.combinations(FEATURES, r):
@@ -265,8 +270,8 @@ def execute(cases_, tier, seed):
     res.evaluations = res.transitions
     res.extra.update({"behavioural_type_probes": len(placed)})
     res.samples = [{"id": c["id"], "settings": c["settings"]} for c in cases_[:: max(1, len(cases_) // 5)]][:5]
-    res.bound = "tier=%s: 3 target kinds x all assignments of %d settings features with <=%d on; 11 use sites per document; %d behaviourally probed types" % (
-        tier, len(FEATURES), 1 if tier == "quick" else 2, len(PROBED))
+    res.bound = "tier=%s: %d target kinds x all assignments of %d settings features with <=%d on; 11 use sites per document; %d behaviourally probed types" % (
+        tier, len(TARGETS), len(FEATURES), 1 if tier == "quick" else 3, len(PROBED)) + (" (k<=2 for the struct target)" if tier == "quick" else "")
     res.assumptions = ["replacement/conversion/map target types live in verif_support::ext and meet exactly the documented requirements"]
     if len(cases_) > 10 and len(vectors) < 20:
         raise MachineryError("vacuity guard: %d behavioural vectors" % len(vectors))
